@@ -24,6 +24,16 @@ Stages of run(ctx)
      real single-node raft + FSM + api.HTTP):
        (a) every candidate pair is run with many iterations,
        (b) all overlapping pairs (quick: a seeded sample) briefly.
+       (c) pairs whose two operations are methods of one LevelDBStore / one
+           OutputStream run in harness/race/raftstore and
+           harness/race/outputstream (in-package, -race) on ONE standalone
+           object incl. Close + re-open -- the full node cannot run them
+           because FSM.Restore x store users crashes this tree.
+     Every driver uses existing AND non-existing arguments (ended, never
+     created, not yet created sessions; unknown channels, nicknames, indexes,
+     keys).  Exclusions are per PAIR: GLINE (in-place Config.Banned writes) is
+     applied only in jobs whose other operation does not take ConfigMu before
+     sessionsMu (decided from the extracted locksets).
   4. verdict: ONLY race-detector reports whose two access stacks lie in
      repository code.  signature = sorted pair of file:function of the two
      stacks.  Predicted by a TLC candidate -> VIOLATION (confirmed candidate);
